@@ -14,9 +14,16 @@ From stdpp Require Import gmap list.
 From RecordUpdate Require Import RecordSet.
 Import RecordSetNotations.
 From Aldrin Require Import gen.BrokerConsts Broker.Model Broker.Run Broker.Wp Broker.Inv
-  Broker.FuelDefs Broker.InvProofsBase Broker.InvProofsSettle Broker.InvProofsStep Broker.InvProofsTerm.
+  Broker.InvProofsBase Broker.InvProofsSettle Broker.InvProofsHandle3 Broker.InvProofsStep Broker.InvProofsTerm.
 From Coq Require Import Lia Arith.
 Local Open Scope N_scope.
+
+(* the potential: [fuel_for] is one more *)
+Definition pot (m : M) : nat :=
+  (length (w_remove_conns (mw m)) + state_ends (ms m)
+   + (3 + size (conns (ms m))) * (work_len (mw m) + state_load (ms m)))%nat.
+Lemma fuel_for_pot m : fuel_for m = S (pot m).
+Proof. reflexivity. Qed.
 
 (* ---------------------------------------------------------------- sums over maps *)
 Section msum.
@@ -97,6 +104,8 @@ Definition rml (m : M) : nat := (length (w_remove_conns (mw m)) + state_ends (ms
 Definition nc (m : M) : nat := size (conns (ms m)).
 Definition Bd (a b n : nat) (m : M) : Prop := (load m ≤ a ∧ rml m ≤ b ∧ nc m ≤ n)%nat.
 
+Definition anyF : M → Prop := fun _ => True.
+
 Ltac bd := unfold Bd, load, rml, nc, work_len, state_load, state_ends, push_remove in *; cbn in *.
 
 Lemma Bd_le a b n m m' :
@@ -118,7 +127,7 @@ Proof.
   destruct e, (ch_s ch) eqn:E1, (ch_r ch) eqn:E2; intros [= <- <-]; cbn; rewrite ?E1, ?E2; done.
 Qed.
 
-Lemma remove_end_Bd a b n m k e : Bd a b n m → res (Bd a b n) (Bd a b n) (remove_end m k e).
+Lemma remove_end_Bd a b n m k e : Bd a b n m → res (Bd a b n) anyF (remove_end m k e).
 Proof.
   intros (Hl & Hr & Hn). unfold remove_end. destruct (chans (ms m) !! k) as [ch|] eqn:Ek; [|done].
   cbv zeta. pose proof (msum_delete chan_weight _ _ _ Ek) as Hd.
@@ -151,7 +160,7 @@ Proof.
   lia.
 Qed.
 
-Lemma remove_service_Bd a b n m cookie : Bd a b n m → res (Bd a b n) (Bd a b n) (remove_service m cookie).
+Lemma remove_service_Bd a b n m cookie : Bd a b n m → res (Bd a b n) anyF (remove_service m cookie).
 Proof.
   intros (Hl & Hr & Hn). unfold remove_service.
   destruct (svc_by_cookie (ms m) cookie) as [[k s]|] eqn:E; [|done].
@@ -173,7 +182,7 @@ Proof.
 Qed.
 
 (* ---------------------------------------------------------------- remove_object *)
-Lemma remove_object_Bd a b n m cookie : Bd a b n m → res (Bd a b n) (Bd a b n) (remove_object m cookie).
+Lemma remove_object_Bd a b n m cookie : Bd a b n m → res (Bd a b n) anyF (remove_object m cookie).
 Proof.
   intros (Hl & Hr & Hn). unfold remove_object.
   destruct (obj_by_cookie (ms m) cookie) as [[u o]|] eqn:E; [|done].
@@ -190,7 +199,7 @@ Lemma foldl_ix {A} (I : list A → M → Prop) (f : M → A → M) l m :
 Proof. intros Hf. revert m. induction l as [|x l IH]; intros m Hm; cbn; [done|]. apply IH. by apply Hf. Qed.
 
 (* event subscriptions of [c] at service [k]: every event key still to be visited is present *)
-Lemma sc_ev_Bd a b n c m k : Bd a b n m → res (Bd a b n) (Bd a b n) (sc_ev c m k).
+Lemma sc_ev_Bd a b n c m k : Bd a b n m → res (Bd a b n) anyF (sc_ev c m k).
 Proof.
   intros H. unfold sc_ev. destruct (svcs (ms m) !! k) as [s|] eqn:Ek; [|done].
   destruct (owner_of_svc (ms m) k) as [owner|]; [|done]. cbv zeta. cbn [res].
@@ -203,9 +212,11 @@ Proof.
     pose proof (msum_delete size _ _ _ Ee) as Hd. pose proof (size_delete_Some _ _ _ Ee) as Hs.
     pose proof (size_insert_Some _ k _ (s' <| s_events ::= delete e |>) Es') as Hz1.
     unfold sc_ev_inner. rewrite Es'. cbv zeta. rewrite Ee. cbn [default].
-    destruct (bool_decide (set0 ∖ {[c]} = ∅)).
+    match goal with |- context [if ?bb then _ else _] => destruct bb end.
     + split; [|split; [done|]].
-      * unfold svc_weight in Hi1. cbn in Hi1. bd. lia.
+      * assert (S (svc_weight (s' <| s_events ::= delete e |>)) ≤ svc_weight s')%nat as Hw
+          by (unfold svc_weight; cbn; lia).
+        bd. lia.
       * intros e' He'. destruct (Hin e' ltac:(by right)) as (s'' & Es'' & Hs'').
         rewrite Es' in Es''. inversion Es''; subst s''. eexists. split; [cbn; apply lookup_insert|].
         cbn. rewrite lookup_delete_ne; [done|]. intros ->. done.
@@ -215,7 +226,9 @@ Proof.
       pose proof (size_insert_Some _ k _ (s' <| s_events ::= <[e := set0 ∖ {[c]}]> |>) Es') as Hz3.
       pose proof (subseteq_size (set0 ∖ {[c]}) set0 ltac:(set_solver)) as Hsub.
       split; [|split; [done|]].
-      * unfold svc_weight in Hi2. cbn in Hi2. bd. lia.
+      * assert (svc_weight (s' <| s_events ::= <[e := set0 ∖ {[c]}]> |>) ≤ svc_weight s')%nat as Hw
+          by (unfold svc_weight; cbn; lia).
+        bd. lia.
       * intros e' He'. destruct (Hin e' ltac:(by right)) as (s'' & Es'' & Hs'').
         rewrite Es' in Es''. inversion Es''; subst s''. eexists. split; [cbn; apply lookup_insert|].
         cbn. rewrite lookup_insert_ne; [done|]. intros ->. done.
@@ -226,7 +239,7 @@ Proof.
       apply elem_of_map_to_list in He. cbn. eauto.
 Qed.
 
-Lemma sc_all_Bd a b n c m k : Bd a b n m → res (Bd a b n) (Bd a b n) (sc_all c m k).
+Lemma sc_all_Bd a b n c m k : Bd a b n m → res (Bd a b n) anyF (sc_all c m k).
 Proof.
   intros (Hl & Hr & Hn). unfold sc_all. destruct (svcs (ms m) !! k) as [s|] eqn:Ek; [|done].
   destruct (owner_of_svc (ms m) k) as [owner|]; [|done].
@@ -236,7 +249,8 @@ Proof.
   pose proof (size_difference (s_all s) {[c]} ltac:(set_solver)) as Hd. rewrite size_singleton in Hd.
   assert (size (s_all s) ≠ 0%nat) as Hne.
   { intros Hz0. apply size_empty_inv in Hz0. set_solver. }
-  unfold svc_weight in Hi. cbn in Hi.
+  assert (S (svc_weight (s <| s_all := s_all s ∖ {[c]} |>)) ≤ svc_weight s)%nat as Hw
+    by (unfold svc_weight; cbn; lia).
   destruct (bool_decide _); bd; lia.
 Qed.
 
@@ -250,7 +264,7 @@ Proof.
   pose proof (subseteq_size (s_subs v ∖ {[c]}) (s_subs v) ltac:(set_solver)). lia.
 Qed.
 
-Lemma sc_end_Bd a b n c e m k : Bd a b n m → res (Bd a b n) (Bd a b n) (sc_end c e m k).
+Lemma sc_end_Bd a b n c e m k : Bd a b n m → res (Bd a b n) anyF (sc_end c e m k).
 Proof.
   intros H. unfold sc_end. destruct (chans (ms m) !! k) as [ch|]; [|done].
   destruct (match e with ESender => _ | EReceiver => _ end); try done.
@@ -270,7 +284,7 @@ Qed.
    number of connections drops *)
 Lemma shutdown_conn_Bd m c sd cs :
   conns (ms m) !! c = Some cs →
-  res (Bd (load m) (rml m) (nc m - 1)) (Bd (load m) (rml m) (nc m - 1)) (shutdown_conn m c sd).
+  res (Bd (load m) (rml m) (nc m - 1)) anyF (shutdown_conn m c sd).
 Proof.
   intros Ec. rewrite shutdown_conn_eq, Ec. cbv zeta.
   pose proof (msum_delete (fun cs => size (cs_calls cs)) _ _ _ Ec) as Hd.
@@ -293,6 +307,164 @@ Proof.
   intros m8 (Hl8 & Hr8 & Hn8). cbn [res].
   destruct (sc_aborts_spec cs m8) as (A1 & A2 & A3). fold X in A3.
   unfold Bd, load, rml, nc in *. cbn. rewrite A1, A2, A3.
-  assert (X ≤ work_len (mw m) + state_load (ms m))%nat; [|lia].
-  unfold state_load. lia.
+  assert (X ≤ work_len (mw m) + state_load (ms m))%nat by (unfold state_load; lia).
+  unfold state_load, state_ends in *. cbn. lia.
 Qed.
+
+(* ---------------------------------------------------------------- the other work items *)
+(* each queues at most |conns| + 2 connection removals and nothing else *)
+Definition item_bound (mp : M) : M → Prop := Bd (load mp) (rml mp + nc mp + 2) (nc mp).
+
+Lemma notify_item_bound m c x : res (item_bound m) anyF (notify_item m c x).
+Proof.
+  unfold notify_item, item_bound. destruct (has m c); [apply send_or_remove_Bd; lia|].
+  unfold Bd. cbn. lia.
+Qed.
+
+Lemma rm_call_item_bound m serial c result : res (item_bound m) anyF (rm_call_item m serial c result).
+Proof.
+  unfold rm_call_item, item_bound. destruct (conns (ms m) !! c) as [cs|] eqn:Ec; [|unfold Bd; cbn; lia].
+  destruct (cs_calls cs !! serial) as [p|] eqn:Ep; [|done]. cbv zeta.
+  pose proof (msum_insert_Some (fun cs => size (cs_calls cs)) _ c cs (cs <| cs_calls ::= delete serial |>) Ec) as Hi.
+  pose proof (size_insert_Some _ c _ (cs <| cs_calls ::= delete serial |>) Ec) as Hz.
+  pose proof (size_delete_Some _ _ _ Ep) as Hs. cbn in Hi.
+  apply send_or_remove_Bd; bd; lia.
+Qed.
+
+Lemma NoDup_List_filter {A} (P : A → bool) (l : list A) : NoDup l → NoDup (List.filter P l).
+Proof.
+  induction l as [|x l IH]; [done|]. rewrite NoDup_cons. intros [Hx Hl]. cbn [List.filter].
+  destruct (P x); [|auto]. apply NoDup_cons. split; [|auto]. rewrite elem_of_List_filter. tauto.
+Qed.
+
+Lemma filter_dom_length (Cn : gmap conn cstate) (l : list conn) :
+  NoDup l → (length (List.filter (fun c => bool_decide (is_Some (Cn !! c))) l) ≤ size Cn)%nat.
+Proof.
+  intros Hn. rewrite <- size_dom. apply NoDup_length_le; [by apply NoDup_List_filter|].
+  intros x Hx. apply elem_of_List_filter in Hx as [_ Hx]. apply bool_decide_eq_true in Hx. by apply elem_of_dom.
+Qed.
+
+Lemma bus_bound m ev : res (item_bound m) anyF (bus m ev).
+Proof.
+  unfold bus. match goal with |- res _ _ (foldO ?f (elements ?X) m) => set (T := X) end.
+  set (P := fun c : conn => bool_decide (is_Some (conns (ms m) !! c))).
+  eapply res_mono; [| |done].
+  1: apply (foldO_res_ix (fun r m' => ms m' = ms m ∧ work_len (mw m') = work_len (mw m) ∧
+        (length (w_remove_conns (mw m')) + length (List.filter P r) ≤
+         length (w_remove_conns (mw m)) + length (List.filter P (elements T)))%nat) anyF).
+  - intros m' x r (I1 & I2 & I3). cbn [List.filter] in I3. unfold has. rewrite I1. fold (P x).
+    destruct (P x); [|done]. cbn [length] in I3.
+    apply send_or_remove_res; intros; unfold push_remove; cbn; (split; [done|]); (split; [done|]); lia.
+  - done.
+  - cbn beta. intros m' (I1 & I2 & I3). cbn [List.filter length] in I3.
+    pose proof (filter_dom_length (conns (ms m)) (elements T) (NoDup_elements T)) as Hf. fold P in Hf.
+    unfold item_bound, Bd, load, rml, nc. rewrite I1, I2. lia.
+Qed.
+
+Lemma abort_call_bound m b callee : res (item_bound m) anyF (abort_call m b callee).
+Proof.
+  unfold abort_call, item_bound. destruct (calls (ms m) !! b) as [cl|] eqn:Eb; [|unfold Bd; cbn; lia].
+  destruct (c_aborted cl); [unfold Bd; cbn; lia|]. cbv zeta.
+  pose proof (size_insert_Some _ b _ (cl <| c_aborted := true |>) Eb) as Hz.
+  eapply res_bind with (QD := Bd (load m) (rml m + 1) (nc m)).
+  - destruct (conns _ !! callee) as [cc|]; [|bd; lia].
+    destruct (_ <=? _); [apply send_or_remove_Bd; bd; lia|bd; lia].
+  - intros m2 (Hl & Hr & Hn). destruct (conns (ms m2) !! c_caller cl) as [cs|] eqn:Ec; [|cbn [res]; unfold Bd; lia].
+    destruct (cs_calls cs !! c_serial cl) as [p|] eqn:Ep; [|done]. cbv zeta.
+    pose proof (msum_insert_Some (fun cs => size (cs_calls cs)) _ (c_caller cl) cs
+                  (cs <| cs_calls ::= delete (c_serial cl) |>) Ec) as Hi.
+    pose proof (size_insert_Some _ (c_caller cl) _ (cs <| cs_calls ::= delete (c_serial cl) |>) Ec) as Hz2.
+    pose proof (size_delete_Some _ _ _ Ep) as Hs. cbn in Hi.
+    apply send_or_remove_Bd; bd; lia.
+Qed.
+
+(* ---------------------------------------------------------------- every iteration lowers [pot] *)
+Lemma pot_eq m : pot m = (rml m + (3 + nc m) * load m)%nat.
+Proof. reflexivity. Qed.
+
+Lemma pop_item_pot m mp r :
+  ms mp = ms m → w_remove_conns (mw mp) = w_remove_conns (mw m) → S (work_len (mw mp)) = work_len (mw m) →
+  res (item_bound mp) anyF r → res (fun m' => pot m' < pot m)%nat anyF r.
+Proof.
+  intros Hs Hq Hw Hr. eapply res_mono; [exact Hr| |done]. intros m' (Hl & Hr' & Hn).
+  rewrite !pot_eq. unfold load, rml, nc in *. rewrite Hs, Hq in *.
+  set (L := (work_len (mw m) + state_load (ms m))%nat) in *.
+  set (N := size (conns (ms m))) in *.
+  assert (work_len (mw m') + state_load (ms m') ≤ L - 1)%nat as Hl2 by lia.
+  assert (1 ≤ L)%nat as HL by lia.
+  pose proof (Nat.mul_le_mono (3 + size (conns (ms m'))) (3 + N) _ _ ltac:(lia) Hl2) as Hm.
+  replace ((3 + N) * (L - 1))%nat with ((3 + N) * L - (3 + N))%nat in Hm by nia.
+  assert (3 + N ≤ (3 + N) * L)%nat by nia. lia.
+Qed.
+
+Lemma settle_one_pot m :
+  match settle_one m with Some r => res (fun m' => pot m' < pot m)%nat anyF r | None => True end.
+Proof.
+  unfold settle_one.
+  destruct (w_remove_conns (mw m)) as [|[c sd] q] eqn:E1.
+  2:{ set (mp := m <| mw; w_remove_conns := q |>).
+      assert (load mp = load m ∧ S (rml mp) = rml m ∧ nc mp = nc m) as (P1 & P2 & P3).
+      { unfold load, rml, nc, work_len. subst mp. cbn. rewrite E1. cbn. lia. }
+      destruct (conns (ms m) !! c) as [cs|] eqn:Ec.
+      - eapply res_mono; [apply (shutdown_conn_Bd mp c sd cs Ec)| |done].
+        intros m' (Hl & Hr & Hn). rewrite !pot_eq.
+        assert (nc m ≠ 0)%nat as Hnz.
+        { unfold nc. intros Hz. apply map_size_empty_inv in Hz. rewrite Hz in Ec. by rewrite lookup_empty in Ec. }
+        pose proof (Nat.mul_le_mono (3 + nc m') (3 + nc m) _ _ ltac:(lia) Hl) as Hm. lia.
+      - rewrite shutdown_conn_eq. change (conns (ms mp) !! c) with (conns (ms m) !! c). rewrite Ec.
+        cbn [res]. rewrite !pot_eq. lia. }
+  destruct (w_unsub_ev (mw m)) as [|[[c s] e] q] eqn:E2.
+  2:{ eapply pop_item_pot; [..|apply (notify_item_bound _ c (UnsubscribeEvent s e))]; [done|done|].
+      unfold work_len. cbn. rewrite E2. cbn. lia. }
+  destruct (w_unsub_all (mw m)) as [|[c s] q] eqn:E3.
+  2:{ eapply pop_item_pot; [..|apply (notify_item_bound _ c (UnsubscribeAllEvents None s))]; [done|done|].
+      unfold work_len. cbn. rewrite E3. cbn. lia. }
+  destruct (w_svc_destroyed (mw m)) as [|[c s] q] eqn:E4.
+  2:{ eapply pop_item_pot; [..|apply (notify_item_bound _ c (ServiceDestroyed s))]; [done|done|].
+      unfold work_len. cbn. rewrite E4. cbn. lia. }
+  destruct (w_rm_call (mw m)) as [|[[serial c] result] q] eqn:E5.
+  2:{ eapply pop_item_pot; [..|apply (rm_call_item_bound _ serial c result)]; [done|done|].
+      unfold work_len. cbn. rewrite E5. cbn. lia. }
+  destruct (w_create_obj (mw m)) as [|[u c] q] eqn:E6.
+  2:{ eapply pop_item_pot; [..|apply bus_bound]; [done|done|]. unfold work_len. cbn. rewrite E6. cbn. lia. }
+  destruct (w_create_svc (mw m)) as [|[[[ou oc] su] sc] q] eqn:E7.
+  2:{ eapply pop_item_pot; [..|apply bus_bound]; [done|done|]. unfold work_len. cbn. rewrite E7. cbn. lia. }
+  destruct (w_destroy_svc (mw m)) as [|[[[ou oc] su] sc] q] eqn:E8.
+  2:{ eapply pop_item_pot; [..|apply bus_bound]; [done|done|]. unfold work_len. cbn. rewrite E8. cbn. lia. }
+  destruct (w_destroy_obj (mw m)) as [|[u c] q] eqn:E9.
+  2:{ eapply pop_item_pot; [..|apply bus_bound]; [done|done|]. unfold work_len. cbn. rewrite E9. cbn. lia. }
+  destruct (w_abort (mw m)) as [|[b callee] q] eqn:E10; [done|].
+  eapply pop_item_pot; [..|apply abort_call_bound]; [done|done|]. unfold work_len. cbn. rewrite E10. cbn. lia.
+Qed.
+
+(* ---------------------------------------------------------------- the bound *)
+(* with at least [pot m] units of fuel the loop neither runs out of fuel nor (from an [MI]
+   machine) hits a panic site *)
+Theorem settle_fuel_enough : ∀ fuel m, MI m → (pot m ≤ fuel)%nat → ∃ m', settle fuel m = Done m'.
+Proof.
+  induction fuel as [|fuel IH]; intros m H Hp; rewrite settle_unfold;
+    pose proof (settle_one_spec m H) as Hs; pose proof (settle_one_pot m) as Hd;
+    (destruct (settle_one m) as [r|]; [|by eexists]);
+    destruct Hs as (m1 & -> & H1 & _); cbn in Hd; [lia|].
+  apply IH; [exact H1|lia].
+Qed.
+
+Theorem settle_fuel_for m : MI m → ∃ m', settle (fuel_for m) m = Done m'.
+Proof. intros H. apply settle_fuel_enough; [exact H|]. rewrite fuel_for_pot. lia. Qed.
+
+(* ---------------------------------------------------------------- a step is total *)
+(* every legal step from an [Inv] state is Done, in an [Inv] state: the fuel site is unreachable *)
+Theorem step_total s e fresh bserial :
+  Inv s → fresh ∉ cookies_in_use s → bserial_ok s bserial → event_ok s e →
+  ∃ s' o, step s e fresh bserial = Done (s', o) ∧ Inv s'.
+Proof.
+  intros H Hf Hb He. pose proof (step_spec s e fresh bserial H Hf Hb He) as Hsp.
+  rewrite step_step_fuel in *. unfold step_fuel in *.
+  destruct (handler_good s e fresh bserial H Hf Hb He) as (m & Hh & Hr). rewrite Hh in *.
+  destruct (settle_fuel_for m Hr) as (m' & Hs). rewrite Hs in *. eauto.
+Qed.
+
+Corollary step_not_out_of_fuel s e fresh bserial :
+  Inv s → fresh ∉ cookies_in_use s → bserial_ok s bserial → event_ok s e →
+  step s e fresh bserial ≠ Panic 0.
+Proof. intros H Hf Hb He Hp. destruct (step_total s e fresh bserial H Hf Hb He) as (s' & o & Hs & _). congruence. Qed.
